@@ -124,7 +124,7 @@ def run(ctx):
         fa = LogPass.FrameArray('verif', 'C10')
         src = {}
         for ci, nme in enumerate(names):
-            dims = (1,) if ci == 0 else rng.choice([(1,), (1,), (3,), (2, 2), (4,)])
+            dims = (1,) if ci == 0 else rng.choice([(1,), (1,), (3,), (2, 2), (4,), (1, 4), (1, 2, 2), (2, 1), (1, 1)])
             dtype = 'float64' if ci == 0 else rng.choice(DTYPES)
             ch = LogPass.FrameChannel(nme, nme + ' long name', UNITS[nme], dims, np.dtype(dtype))
             ch.init_array(nfr)
